@@ -3,10 +3,14 @@ EXTENDS Upload, Json
 CONSTANTS p1, p2
 VARIABLE hist
 \* request classes: r0 = piece 0 first block; r1 = piece 1, unaligned offset, inside the piece;
-\* rx = piece 0 range running past the end of the piece; rz = index beyond the torrent
+\* rx = piece 0 range running past the end of the piece; rz = index beyond the torrent; rh = a huge length
 MCReqs == {"r0", "r1", "rx", "rz"}
 MCPieceOfReq == [rq \in MCReqs |-> CASE rq = "r0" -> 0 [] rq = "r1" -> 1 [] rq = "rx" -> 0 [] rq = "rz" -> 9]
 MCServable == [rq \in MCReqs |-> rq \in {"r0", "r1"}]
+\* simulation only: also rh = piece 0, offset 0, a length of 2^30 (never servable)
+MCReqs5 == MCReqs \cup {"rh"}
+MCPieceOfReq5 == [rq \in MCReqs5 |-> IF rq = "rh" THEN 0 ELSE MCPieceOfReq[rq]]
+MCServable5 == [rq \in MCReqs5 |-> rq \in {"r0", "r1"}]
 MCInit == Init /\ hist = <<>>
 MCNext == Next /\ UNCHANGED hist
 MCSpec == MCInit /\ [][MCNext]_<<vars, hist>>
